@@ -238,6 +238,15 @@ func runC08(c C08Case, ev *vt.Ev) *vt.Failure {
 			}
 			// crash inside the request: the state before the request is acceptable as well
 			if misBefore := observeAll(s, before, parents, false); misBefore != "" {
+				// open finding D21 (see known_findings.json): a request that drops AND re-creates a family, killed
+				// after the new definition was persisted but before the purge: final schema, old cells still there
+				if sigD21(s, before, m, op, st.Crash, parents) {
+					if vt.Replay() != "" {
+						return &vt.Failure{Property: "C08", Sig: "D21", Msg: fmt.Sprintf("step %d (ModifyCF drop+create of one family) killed at %s: after restart the new definition is served with the old cells of the re-created family", i, st.Crash)}
+					}
+					ev.KnownHit("D21")
+					return nil // abandon the case: the search continues behind the known finding
+				}
 				return fail("C08", i, op, fmt.Sprintf("after a kill at %s (hit %d) and a restart the state is neither the one after the request (%s) nor the one before it (%s)", st.Crash, st.Hit, misAfter, misBefore))
 			}
 			m = before
@@ -264,4 +273,45 @@ func TestC08(t *testing.T) {
 	vt.Prop[C08Case]{ID: "C08", Test: "TestC08",
 		Rule: "fault enumeration in-process: rapid-generated admin+data programs (5-40 requests over <=3 tables in <=2 parents: CreateTable with GC rules, ModifyColumnFamilies create/update/drop, DeleteTable, re-create, MutateRow(s), ReadModifyWrite, CheckAndMutate, DropRowRange prefix/all) on the disk engine with a crash decision per request: kill right after the response, or at the 1st/2nd hit of a guarded crash point inside the request (SetTableMeta start / temp file written / renamed, Create after the metadata write, Clear after close / after reopen, directory removed); a crash = stable point-in-time copy of the storage root on which a NEW server is started (repeated cycles); oracle = registry/data model of acknowledged requests, an in-flight request must be wholly present or wholly absent; non-trivial = a restart after >=1 admin change and >=3 data writes",
 		Gen:  genC08(), Run: runC08}.Main(t)
+}
+
+// sigD21: the narrow signature of open finding D21. Input side: a ModifyColumnFamilies request that both drops
+// and creates the same family id, killed at disk.SetTableMeta.renamed. Output side: the state served after the
+// restart is exactly "definition after the request + rows as they were before it, restricted to the families of
+// the new definition" — i.e. only the purge of the re-created family is missing.
+func sigD21(s bt.Execer, before, after *bt.Model, op *bt.Op, crash string, parents []string) bool {
+	if op.K != "ModifyCF" || crash != "disk.SetTableMeta.renamed" {
+		return false
+	}
+	dropped, recreated := map[string]bool{}, false
+	for _, m := range op.Mods {
+		if m.K == "drop" {
+			dropped[m.ID] = true
+		}
+		if m.K == "create" && dropped[m.ID] {
+			recreated = true
+		}
+	}
+	if !recreated {
+		return false
+	}
+	hybrid := after.Clone()
+	name := op.FullName()
+	bt0, at := before.Tables[name], hybrid.Tables[name]
+	if bt0 == nil || at == nil {
+		return false
+	}
+	at.Rows = map[string]bt.MRow{}
+	for k, r := range bt0.Rows {
+		nr := bt.MRow{}
+		for f, qs := range r.Clone() {
+			if _, ok := at.Fams[f]; ok {
+				nr[f] = qs
+			}
+		}
+		if !nr.Empty() {
+			at.Rows[k] = nr
+		}
+	}
+	return observeAll(s, hybrid, parents, false) == ""
 }
